@@ -48,6 +48,31 @@ template <int K, size_t LEN> static void roundtrip_len_h()
     vf::g_exact_len = LEN + 1;
     roundtrip_h<K, 0>();
 }
+// very large payloads (exactly LEN elements, concrete zero contents): dump, reload, same size and same last element, the
+// reader consumes the whole stream. Only instantiated when the IO sources mention a large block size (props.io_big_literals)
+template <int K, size_t LEN> static void roundtrip_big_h()
+{
+    using B = typename stack<K>::type;
+    vf::g_exact_len = LEN + 1;
+    auto o = vf::blank<B>(0);
+    field<B> f(make_parameter_pack(std::move(o)));
+    std::ostream * os = vf_ostream();
+    bool threw = false;
+    try {
+        f.dump(*os);
+        std::istream * is = vf_istream_from(os, vf_stream_len(os), VF_NEVER);
+        field<B> g(*is);
+        const auto & a = vf::array_of(f.backend());
+        const auto & b = vf::array_of(g.backend());
+        vf_assert(a.m_size == LEN && b.m_size == LEN, 1);
+        vf_assert(LEN == 0 || vf::same_arr(a.m_ptr[LEN - 1], b.m_ptr[LEN - 1]), 1);
+        vf_assert(vf_istream_pos(is) == vf_stream_len(os), 2);
+    } catch (...) {
+        threw = true;
+    }
+    vf_assert(!threw, 6);
+    vf_observe_u64(vf_stream_len(os));
+}
 // consistent geometry: extents 1..BND per axis and exactly the storage the library would allocate for them
 template <int K, size_t BND> static void roundtrip_geo_h()
 {
